@@ -478,7 +478,10 @@ def deep_copy(ip, x, memo=None):
         memo[id(x)] = o
         return o
     if isinstance(x, PyFn) and getattr(x, "weak_target", None) is not None:
-        # weakref to an object inside the copied graph points to the copy
+        # weakref to an object inside the copied graph points to the copy (Node.__getstate__ / __setstate__ re-wrap the referent); a DEAD reference
+        # (its referent was collected) stays dead: the copy has no model
+        if getattr(x.weak_target, "dead", False):
+            return PyFn(lambda ip2: None, "dead-weakref")
         tgt = deep_copy(ip, x.weak_target, memo)
         f = PyFn(lambda ip2: None if getattr(tgt, "dead", False) else tgt, "weakref")
         f.weak_target = tgt
